@@ -29,10 +29,15 @@ let parse_state kv =
                                                        u_expiry = z_of_hex exp; u_sessionsCap = z_of_hex cap })
       | _ -> failwith ("bad db " ^ a)) }
 
-let dh_table kv =
-  let tbl = lst (get "dh" kv) ',' (fun e -> match split_on ':' e with
+let dh_entries kv =
+  lst (get "dh" kv) ',' (fun e -> match split_on ':' e with
     | [p; s] -> (p, if s = "!" then None else Some (bytes_of_hex s))
-    | _ -> failwith "bad dh") in
+    | _ -> failwith "bad dh")
+(* Go's X25519 failed ("!") exactly on the ephemeral values the model calls small-order (Model/LowOrder.v) *)
+let low_order_mismatches kv =
+  List.length (List.filter (fun (p, s) -> low_order (bytes_of_hex p) <> (s = None)) (dh_entries kv))
+let dh_table kv =
+  let tbl = dh_entries kv in
   fun (_pv : n list) (pub : n list) ->
     let k = hex_of_bytes pub in
     (try List.assoc k tbl with Not_found -> raise (Miss ("dh " ^ k)))
@@ -100,6 +105,6 @@ let () = iter_lines (fun line ->
       let disp = (match dispatch_conn dh gcm hid pkt Stall st now with
         | OClose -> "close" | ODrop -> "drop" | OCrash -> "crash" | OWeb (_, _) -> "web"
         | OSession AdminSession -> "admin" | OSession _ -> "proxy") in
-      Printf.printf "%s auth=%s dec=%s disp=%s\n" id auth dec disp
+      Printf.printf "%s auth=%s dec=%s disp=%s lomis=%d\n" id auth dec disp (low_order_mismatches kv)
     with Miss m -> Printf.printf "%s MISS %s\n" id m
        | Failure m -> Printf.printf "%s FAIL %s\n" id m))
